@@ -151,9 +151,13 @@ def run(ctx):
                 "non-trivial iff the output has ≥ 1 packet (legitimately empty outputs are counted separately).")
     ctx.assumptions = ["TCP sequence space of one exported conversation stays below 2^32 (no > 4 GiB flows generated)"]
     import c06_model
-    ctx.prove(["TLX.Props.C06"])
-    ctx.require_theorems(c06_model.THEOREMS)
+    import ob_outbytes
+    import file_corr
+    ctx.prove(["TLX.Props.C06"] + ob_outbytes.MODULES)
+    ctx.require_theorems(c06_model.THEOREMS + ob_outbytes.THEOREMS)
     c06_model.run_model(ctx)
+    ob_outbytes.correspond(ctx)       # ties TLX.OutBytes (scapy serialisation, dpkt pcapng writer) to the real libraries
+    file_corr.correspond(ctx)         # whole program, capture file → output file, byte for byte
     explore(ctx)
     return ctx.finish(search=lambda c: explore(c, scale=2))
 
